@@ -392,6 +392,8 @@ type queryGen struct {
 	// clean: every field is read with the aggregate of its own type only (bare field or the matching function), so
 	// one field never needs two aggregate types and the function's aggregate equals the field type's
 	clean bool
+	// noCond: no tag conditions
+	noCond bool
 }
 
 var aliasSeq int
@@ -593,7 +595,7 @@ func (g *queryGen) query(m *node.Model, dataSlots []int) *node.Query {
 		default:
 			q.IntervalMs = 25_000
 		}
-		if g.rnd.Intn(3) == 0 {
+		if g.rnd.Intn(3) == 0 && !g.noCond {
 			q.Cond = g.cond(ms, m.SeriesTags("", ms.Name))
 		}
 		switch g.rnd.Intn(6) {
